@@ -304,7 +304,85 @@ func (d *dataset) addBatch(rows []engx.Row) {
 	}
 }
 
-func applyScript(sh *engine.VerifShard, d *dataset, script []string) error {
+// deployment: one shard, or nPts partitions x nShards time ranges (every series lives in the
+// partition `series mod nPts`, every row in the shard of its time), all behind one query path.
+type deployment struct {
+	nPts, nShards int
+	nTimes        int
+	single        *engine.VerifShard
+	placed        []engine.VerifPlacedShard
+	dirs          []string
+}
+
+func (dp *deployment) multi() bool { return dp.single == nil }
+
+func (dp *deployment) text() string {
+	if !dp.multi() {
+		return "1 shard"
+	}
+	return fmt.Sprintf("%d partitions x %d shards", dp.nPts, dp.nShards)
+}
+
+// shardOf: index into placed of the shard that owns (series, time index).
+func (dp *deployment) shardOf(series, t int) int {
+	k := t * dp.nShards / dp.nTimes
+	if k >= dp.nShards {
+		k = dp.nShards - 1
+	}
+	return (series%dp.nPts)*dp.nShards + k
+}
+
+func (dp *deployment) each(f func(sh *engine.VerifShard)) {
+	if !dp.multi() {
+		f(dp.single)
+		return
+	}
+	for _, p := range dp.placed {
+		f(p.Shard)
+	}
+}
+
+func (dp *deployment) write(rows []engx.Row) error {
+	if !dp.multi() {
+		return dp.single.Write(engx.ToInflux(rows))
+	}
+	parts := map[int][]engx.Row{}
+	for _, r := range rows {
+		i := dp.shardOf(r.Series, r.T)
+		parts[i] = append(parts[i], r)
+	}
+	for i := range dp.placed {
+		if len(parts[i]) == 0 {
+			continue
+		}
+		if err := dp.placed[i].Shard.Write(engx.ToInflux(parts[i])); err != nil {
+			return err
+		}
+	}
+	return nil
+}
+
+func (dp *deployment) query(sql string, o engine.VerifQueryOptions) ([]engine.VerifPart, error) {
+	if !dp.multi() {
+		return dp.single.QueryWith(sql, qlFields, tagKeys, o)
+	}
+	return engine.VerifQueryMulti(dp.placed, sql, qlFields, tagKeys, o)
+}
+
+func (dp *deployment) close() error {
+	var first error
+	dp.each(func(sh *engine.VerifShard) {
+		if err := sh.Close(); err != nil && first == nil {
+			first = err
+		}
+	})
+	for _, d := range dp.dirs {
+		os.RemoveAll(d)
+	}
+	return first
+}
+
+func applyScript(dp *deployment, d *dataset, script []string) error {
 	for _, op := range script {
 		f := strings.Fields(op)
 		var err error
@@ -312,16 +390,16 @@ func applyScript(sh *engine.VerifShard, d *dataset, script []string) error {
 			switch f[0] {
 			case "W":
 				id, _ := strconv.Atoi(f[1])
-				err = sh.Write(engx.ToInflux(d.batches[id]))
+				err = dp.write(d.batches[id])
 			case "F":
-				sh.Flush()
+				dp.each(func(sh *engine.VerifShard) { sh.Flush() })
 			case "c":
 				lv, _ := strconv.Atoi(f[1])
-				_ = sh.LevelCompact(uint16(lv))
+				dp.each(func(sh *engine.VerifShard) { _ = sh.LevelCompact(uint16(lv)) })
 			case "C":
-				_ = sh.FullCompact()
+				dp.each(func(sh *engine.VerifShard) { _ = sh.FullCompact() })
 			case "m":
-				_ = sh.MergeOutOfOrder(f[1] == "true", true)
+				dp.each(func(sh *engine.VerifShard) { _ = sh.MergeOutOfOrder(f[1] == "true", true) })
 			}
 		})
 		if perr != "" {
@@ -331,25 +409,56 @@ func applyScript(sh *engine.VerifShard, d *dataset, script []string) error {
 			return fmt.Errorf("%s: %v", op, err)
 		}
 	}
-	sh.Quiesce()
+	dp.each(func(sh *engine.VerifShard) { sh.Quiesce() })
 	return nil
 }
 
-func loadDataset(d *dataset) (*engine.VerifShard, string, error) {
-	dir := engx.ScratchDir("c08")
-	sh, err := engine.VerifOpenShard(dir, 1)
-	if err != nil {
-		os.RemoveAll(dir)
-		return nil, "", err
+// loadDataset opens the deployment (nPts = 0: one stand-alone shard) and replays the history.
+func loadDataset(d *dataset, nPts, nShards int) (*deployment, error) {
+	dp := &deployment{nPts: nPts, nShards: nShards, nTimes: d.nTimes}
+	if nPts == 0 {
+		dir := engx.ScratchDir("c08")
+		dp.dirs = append(dp.dirs, dir)
+		sh, err := engine.VerifOpenShard(dir, 1)
+		if err != nil {
+			os.RemoveAll(dir)
+			return nil, err
+		}
+		sh.DisableBackground()
+		dp.single = sh
+	} else {
+		per := (d.nTimes + nShards - 1) / nShards
+		_ = per
+		for pt := 0; pt < nPts; pt++ {
+			for k := 0; k < nShards; k++ {
+				dir := engx.ScratchDir("c08")
+				dp.dirs = append(dp.dirs, dir)
+				// the shard of time indexes t with t*nShards/nTimes == k
+				lo := (k*d.nTimes + nShards - 1) / nShards
+				hi := ((k+1)*d.nTimes + nShards - 1) / nShards
+				start, end := engx.TimeOf(lo), engx.TimeOf(hi)
+				if k == 0 {
+					start = 0
+				}
+				if k == nShards-1 {
+					end = engx.TimeOf(1 << 20)
+				}
+				sh, err := engine.VerifOpenShardAt(dir, 1, uint32(pt+1), uint64(pt*nShards+k+1), start, end)
+				if err != nil {
+					dp.close()
+					return nil, err
+				}
+				sh.DisableBackground()
+				dp.placed = append(dp.placed, engine.VerifPlacedShard{Shard: sh, PtID: uint32(pt + 1), ShardID: uint64(pt*nShards + k + 1)})
+			}
+		}
 	}
-	sh.DisableBackground()
-	if err := applyScript(sh, d, d.script); err != nil {
-		sh.Close()
-		os.RemoveAll(dir)
-		return nil, "", err
+	if err := applyScript(dp, d, d.script); err != nil {
+		dp.close()
+		return nil, err
 	}
-	sh.FlushIndex()
-	return sh, dir, nil
+	dp.each(func(sh *engine.VerifShard) { sh.FlushIndex() })
+	return dp, nil
 }
 
 // ---------------------------------------------------------------------------------------------
